@@ -138,6 +138,31 @@ def absorbed_delay_program(rng):
             "config": {}, "engine": "world", "family": "absorbed-delay"}
 
 
+def diamond_program(rng):
+    """Two shared connectives over a common leaf, waiters on each and on their combination (the
+    `_diamond` of the C08 family, here on its own and in numbers): the order in which their helper
+    activities are started and woken must not follow object addresses."""
+    from . import C08
+    actors = C08._diamond(rng, 0)
+    resources = {"f%d" % i: {"kind": "flag", "init": rng.random() < 0.2} for i in range(3)}
+    resources["x0"] = {"kind": "tracked", "init": rng.randint(0, 3)}
+    for i in range(rng.randint(1, 3)):
+        ops = []
+        for _ in range(rng.randint(1, 4)):
+            ops.append({"op": "sleep", "d": rng.choice([0.25, 0.5, 1, 2])})
+            if rng.random() < 0.7:
+                ops.append({"op": "flag_set", "on": "f%d" % rng.randrange(3),
+                            "to": rng.random() < 0.7})
+            else:
+                ops.append({"op": "tr_set", "on": "x0", "to": rng.randint(0, 4)})
+        actors.append({"name": "set%d" % i, "ops": ops})
+    actors.append({"name": "zall", "after": 64, "ops": [
+        {"op": "flag_set", "on": "f0", "to": True}, {"op": "flag_set", "on": "f1", "to": True},
+        {"op": "flag_set", "on": "f2", "to": False}, {"op": "tr_set", "on": "x0", "to": 9}]})
+    return {"scenario": {"resources": resources, "actors": actors}, "plan": [], "config": {},
+            "engine": "world", "family": "diamond"}
+
+
 def check_wake_order(sub):
     rec, cleanup = union.execute(configured(sub, {}))
     try:
@@ -158,6 +183,7 @@ def generate(rng, tier):
     batch = [union.generate(rng) for _ in range(BATCH)]
     batch.extend(wake_order_program(rng) for _ in range(8))
     batch.extend(absorbed_delay_program(rng) for _ in range(2))
+    batch.extend(diamond_program(rng) for _ in range(6))
     for sub in batch:
         if rng.random() < 0.5:
             sub["gc_ticks"] = sorted(rng.randint(1, 80) for _ in range(rng.randint(1, 3)))
